@@ -234,6 +234,9 @@ enum Seg {
     Raw(Vec<u8>),
     /// n labels of length k
     Run(u8, u8),
+    /// a terminated name followed by n pointers, each pointing at the previous one
+    /// (chunks that consist of a pointer alone are legal; so is any number of them)
+    PtrChain(u16),
 }
 
 fn seg_strategy() -> impl Strategy<Value = Seg> {
@@ -248,12 +251,15 @@ fn seg_strategy() -> impl Strategy<Value = Seg> {
         1 => prop::collection::vec(prop_oneof![Just(0x40u8), Just(0x80u8), Just(0xbfu8), Just(0x3fu8), Just(0xc0u8)], 1..2).prop_map(Seg::Raw),
         1 => (1u8..=130, 1u8..=3).prop_map(|(n, k)| Seg::Run(n, k)),
         1 => (1u8..=5, 40u8..=63).prop_map(|(n, k)| Seg::Run(n, k)),
+        1 => prop_oneof![1u16..8, 120u16..135, 1u16..280].prop_map(Seg::PtrChain),
     ]
 }
 
-fn build(segs: &[Seg]) -> (Vec<u8>, Vec<usize>) {
+fn build(segs: &[Seg]) -> (Vec<u8>, Vec<usize>, Vec<usize>) {
     let mut buf = Vec::new();
     let mut starts = Vec::new();
+    // offsets worth starting at that are not segment starts (ends of pointer chains)
+    let mut specials = Vec::new();
     for s in segs {
         starts.push(buf.len());
         match s {
@@ -286,13 +292,28 @@ fn build(segs: &[Seg]) -> (Vec<u8>, Vec<usize>) {
                     }
                 }
             }
+            Seg::PtrChain(n) => {
+                // "\x01a\x00" then the chain
+                let mut target = buf.len();
+                buf.extend_from_slice(&[1, b'a', 0]);
+                for _ in 0..*n {
+                    if buf.len() + 2 > 600 || target > 0x3fff {
+                        break;
+                    }
+                    let here = buf.len();
+                    buf.push(0xc0 | ((target >> 8) as u8 & 0x3f));
+                    buf.push(target as u8);
+                    target = here;
+                }
+                specials.push(target);
+            }
         }
         if buf.len() > 600 {
             buf.truncate(600);
             break;
         }
     }
-    (buf, starts)
+    (buf, starts, specials)
 }
 
 pub fn case_strategy() -> impl Strategy<Value = Case> {
@@ -303,13 +324,15 @@ pub fn case_strategy() -> impl Strategy<Value = Case> {
         any::<u16>(),
     )
         .prop_map(|(segs, sel, mode, cut)| {
-            let (mut buf, starts) = build(&segs);
+            let (mut buf, starts, specials) = build(&segs);
             // sometimes truncate the buffer
             if mode == 9 && !buf.is_empty() {
                 let keep = (cut as usize * (buf.len() + 1)) >> 16;
                 buf.truncate(keep);
             }
-            let start = if mode < 7 && !starts.is_empty() {
+            let start = if mode == 7 && !specials.is_empty() {
+                specials[(sel as usize * specials.len()) >> 16].min(buf.len())
+            } else if mode < 7 && !starts.is_empty() {
                 starts[(sel as usize * starts.len()) >> 16].min(buf.len())
             } else {
                 (sel as usize * (buf.len() + 2)) >> 16
